@@ -1508,3 +1508,22 @@ V("C01-dict-validate-returns-raw-value", "C01", "DictProxy._validate hands back 
   "        return (validated_key, validated_value)", "        return (validated_key, value)")
 V("C01-dict-validate-value-by-key-field", "C01", "DictProxy._validate validates the value with the key field", "cincoconfig/fields/dict_field.py",
   "            validated_value = self.value_field.validate(self.cfg, value)", "            validated_value = self.key_field.validate(self.cfg, value)")
+
+# ---- round 4: mutants of the spellings accepted after the round-4 changes
+VP("C15-R4C-mut-tuple-assign-no-parent", "C15", "tuple assignment of the links without the parent", "C15-R4C", "cincoconfig/fields/list_field.py",
+   "        cfg._container, cfg._key, cfg._parent = self, self.list_field._key, self.cfg", "        cfg._container, cfg._key = self, self.list_field._key")
+VP("C03-R4C-mut-identity-swapped", "C15", "`cfg is value` branches swapped: a configuration handed in is loaded as a tree", "C03-R4C", "cincoconfig/fields/list_field.py",
+   "            if cfg is value:\n                cfg.validate()\n            else:\n                cfg.load_tree(value)  # type: ignore",
+   "            if cfg is not value:\n                cfg.validate()\n            else:\n                cfg.load_tree(value)  # type: ignore")
+VP("C05-R4D-mut-codec-pair-crossed", "C05", "codec table: hex encoder paired with the base64 decoder", "C05-R4D", "cincoconfig/fields/bytes_field.py",
+   '    "hex": (bytes.hex, bytes.fromhex),', '    "hex": (bytes.hex, base64.b64decode),')
+VP("C11-R4C-mut-closure-skips-validators", "C11", "generator closure no longer yields the schema validators", "C11-R4C", CORE,
+   "            for validator in self._validators:\n                yield None, partial(validator, config)\n", "")
+VP("C13-R4C-mut-walrus-guard-no-identity", "C01", "`pairs and not (...)` guard without the field identity", "C13-R4C", "cincoconfig/fields/dict_field.py",
+   "        if pairs and not (isinstance(pairs, DictProxy) and pairs.dict_field is dict_field):", "        if pairs and not isinstance(pairs, DictProxy):")
+VP("C10-R4C-mut-walrus-list-drops-mask", "C10", "restyled to_tree: the list-of-configurations branch drops the mask", "C10-R4C", CORE,
+   "                    item.to_tree(virtual=virtual, sensitive_mask=sensitive_mask)", "                    item.to_tree(virtual=virtual)")
+VP("C02-R4C-mut-table-int-before-bool", "C04", "scalar type table lists int before bool", "C02-R4C", "cincoconfig/formats/xml.py",
+   '    SCALAR_TYPES = ((str, "str"), (bool, "bool"), (int, "int"), (float, "float"))', '    SCALAR_TYPES = ((str, "str"), (int, "int"), (bool, "bool"), (float, "float"))')
+VP("C07-R4D-mut-guarded-decrement-wrong-test", "C07", "guarded decrement skips the decrement while a context is open", "C07-R4D", ENC,
+   "        if self.__refcount > 0:\n            self.__refcount -= 1", "        if self.__refcount > 1:\n            self.__refcount -= 1")
